@@ -388,6 +388,16 @@ func (e *endpoint) Write(p tcpip.Payload, opts tcpip.WriteOptions) (uintptr, <-c
 		dstPort = to.Port
 	}
 
+	// The datagram must fit the 16-bit length fields of the UDP header and of
+	// the IP header in front of it.
+	maxPayload := math.MaxUint16 - header.UDPMinimumSize
+	if route.NetProto == header.IPv4ProtocolNumber {
+		maxPayload -= header.IPv4MinimumSize
+	}
+	if p.Size() > maxPayload {
+		return 0, nil, tcpip.ErrMessageTooLong
+	}
+
 	// 如果路由没有下一跳的链路MAC地址，那么触发相应的机制，来填充该路由信息。
 	// 比如：IPV4协议，如果没有目的IP对应的MAC信息，从从ARP缓存中查找信息，找到了直接返回，
 	// 若没找到，那么发送ARP请求，得到对应的MAC地址。
